@@ -5,6 +5,7 @@ import (
 	"fmt"
 	"net"
 	"reflect"
+	"sort"
 	"strings"
 	"testing"
 	"time"
@@ -46,6 +47,51 @@ type C02Case struct {
 	ShareDefault []ShareD    `json:"share_default,omitempty"`
 	ShareLayers  []ShareL    `json:"share_layers,omitempty"`
 	ShareWithin  []SharePair `json:"share_within,omitempty"`
+	// ShareInMaps makes the entries of every map whose values are slices or
+	// maps share ONE value object (m[k2] = m[k1] ...), in defaults, layers and
+	// the expected value alike.
+	ShareInMaps bool `json:"share_in_maps,omitempty"`
+}
+
+// shareInMaps rewrites v in place: in every map (reached through exported
+// fields, pointers, slices, arrays) whose element kind is slice or map and
+// that has >= 2 entries, every entry gets the value object of the first key
+// in sorted order.  Deterministic, so expected values get the same contents.
+func shareInMaps(v reflect.Value) int {
+	n := 0
+	switch v.Kind() {
+	case reflect.Pointer, reflect.Interface:
+		if !v.IsNil() {
+			n += shareInMaps(v.Elem())
+		}
+	case reflect.Struct:
+		for i := 0; i < v.NumField(); i++ {
+			if v.Type().Field(i).IsExported() {
+				n += shareInMaps(v.Field(i))
+			}
+		}
+	case reflect.Slice, reflect.Array:
+		for i := 0; i < v.Len(); i++ {
+			n += shareInMaps(v.Index(i))
+		}
+	case reflect.Map:
+		if v.IsNil() || v.Type().Key().Kind() != reflect.String {
+			return 0
+		}
+		ek := v.Type().Elem().Kind()
+		if (ek == reflect.Slice || ek == reflect.Map) && v.Len() >= 2 {
+			keys := v.MapKeys()
+			sort.Slice(keys, func(i, j int) bool { return keys[i].String() < keys[j].String() })
+			first := v.MapIndex(keys[0])
+			if !first.IsNil() {
+				for _, k := range keys[1:] {
+					v.SetMapIndex(k, first)
+				}
+				n++
+			}
+		}
+	}
+	return n
 }
 
 // genShareWithin aliases pairs of default leaves of identical reference type.
@@ -85,7 +131,7 @@ func genShareWithin(t *rapid.T, nodes []shape.Node, d *shape.Data) []SharePair {
 
 var aliasLeafTypes = []string{
 	"[]string", "[]int", "[][]int", "[]Rec", "[]*int", "[]map[string]int", "[2]*int", "[2][]int", "[1]Rec",
-	"map[string]int", "map[string][]string", "map[string]Rec", "map[string]*int", "map[string]map[string]int", "map[string]struct{}",
+	"map[string]int", "map[string][]string", "map[string][]int", "map[string]Rec", "map[string]*int", "map[string]map[string]int", "map[string]struct{}",
 	"*int", "*string", "**int", "*[]int", "*map[string]int", "*[2]int", "*Stamp", "*time.Time", "net.IP", "Names", "Limits",
 	"Tagged", "*Tagged", "[]Tagged", "map[string]Tagged", "[1]Tagged",
 	"int", "string", "Stamp",
@@ -143,7 +189,7 @@ func genC02(t *rapid.T) C02Case {
 	d := shape.GenData(t, nodes, 4, 45)
 	sw := genShareWithin(t, nodes, &d)
 	sd, sl := genShares(t, nodes, &d)
-	return C02Case{Shape: s, Data: d, ShareDefault: sd, ShareLayers: sl, ShareWithin: sw}
+	return C02Case{Shape: s, Data: d, ShareDefault: sd, ShareLayers: sl, ShareWithin: sw, ShareInMaps: rapid.Bool().Draw(t, "share_in_maps")}
 }
 
 // applyShares physically aliases the leaves named by the directives.
@@ -195,6 +241,12 @@ func buildInputs(b *shape.Builder, c C02Case) (*builtInputs, error) {
 		}
 		in.layers = append(in.layers, lv)
 	}
+	if c.ShareInMaps {
+		in.shared += shareInMaps(in.defaults)
+		for _, l := range in.layers {
+			in.shared += shareInMaps(l)
+		}
+	}
 	for _, sp := range c.ShareWithin {
 		a, b := shape.FieldByPath(in.defaults, sp.A), shape.FieldByPath(in.defaults, sp.B)
 		if a.IsValid() && b.IsValid() && b.CanSet() && a.Type() == b.Type() && isRefKind(a.Kind()) && !a.IsNil() {
@@ -241,6 +293,9 @@ func runC02(c C02Case) vrt.Verdict {
 		return vrt.Violationf("pointerified type cannot hold the layer: %v", err)
 	}
 	want := b.Expected(c.Data)
+	if c.ShareInMaps {
+		shareInMaps(want)
+	}
 	stack := func() (reflect.Value, error) {
 		got, err := dials.VerifCompose(in.defaults.Interface(), in.args)
 		if err != nil {
@@ -418,7 +473,7 @@ func runC02Dials(c C02DialsCase) vrt.Verdict {
 	}
 	T := reflect.TypeOf(C02Cfg{})
 	b := shape.NewBuilder(T, shape.ValueOpts{})
-	cc := C02Case{Data: c.Data, ShareDefault: c.ShareDefault, ShareLayers: c.ShareLayers, ShareWithin: c.ShareWithin}
+	cc := C02Case{Data: c.Data, ShareDefault: c.ShareDefault, ShareLayers: c.ShareLayers, ShareWithin: c.ShareWithin, ShareInMaps: c.ShareInMaps}
 	in, err := buildInputs(b, cc)
 	if err != nil {
 		return vrt.Violationf("pointerified type cannot hold the layer: %v", err)
@@ -446,7 +501,11 @@ func runC02Dials(c C02DialsCase) vrt.Verdict {
 		for _, li := range slot {
 			md.Layers = append(md.Layers, c.Data.Layers[li])
 		}
-		return b.Expected(md)
+		w := b.Expected(md)
+		if c.ShareInMaps {
+			shareInMaps(w)
+		}
+		return w
 	}
 	type version struct {
 		cfg  *C02Cfg
